@@ -40,6 +40,7 @@ import (
 	"github.com/invopop/gobl/schema"
 	"github.com/invopop/gobl/tax"
 
+	"verifharness/internal/conc"
 	"verifharness/internal/core"
 )
 
@@ -85,6 +86,10 @@ func Run(c *core.Ctx) int {
 	served(c)
 	coherence(c)
 	validateDefs(c)
+	// the definitions the library ENFORCES are the registered ones as they are while documents are
+	// being handled: after a workload over every regime x addon combination (full pipeline incl.
+	// corrections) they must still marshal to the published files
+	afterUse(c)
 	return c.Finish(rule, map[string]any{"exhaustive": true})
 }
 
@@ -296,10 +301,33 @@ func regimeFile(r *tax.RegimeDef) string {
 	return strings.ToLower(n)
 }
 
+func afterUse(c *core.Ctx) {
+	inputs, outputs, err := conc.LoadExamples(c.Repo)
+	if err != nil {
+		c.TieBroken("drive:C19/after-use", err.Error(), nil)
+		return
+	}
+	docs := append(append(conc.CrossAddons(inputs), inputs...), outputs...)
+	if !c.Thorough() && len(docs) > 160 {
+		// every regime x addon combination is in the first part (CrossAddons)
+		docs = docs[:160]
+	}
+	for _, d := range docs {
+		_ = conc.Pipeline(d)
+	}
+	c.Count("after-use:documents-handled", int64(len(docs)))
+	phase = "after-use:"
+	defer func() { phase = "" }()
+	marshalled(c)
+}
+
+// phase prefixes the evaluation keys of a repeated comparison.
+var phase string
+
 func marshalled(c *core.Ctx) {
 	cmp := func(kind, rel string, v any) {
-		c.Eval("marshal:"+rel, true)
-		c.Count("definitions-marshalled:"+kind, 1)
+		c.Eval(phase+"marshal:"+rel, true)
+		c.Count(phase+"definitions-marshalled:"+kind, 1)
 		want, err := marshalDef(v)
 		have, err2 := os.ReadFile(filepath.Join(c.Repo, "data", rel))
 		switch {
@@ -308,7 +336,7 @@ func marshalled(c *core.Ctx) {
 		case err2 != nil:
 			c.Fail("", rel+": registered in the code but not published", Case{Kind: "marshal", Path: rel})
 		case !bytes.Equal(want, have):
-			c.Fail("", fmt.Sprintf("data/%s is not what the registered definition marshals to (byte %d: shipped %q, code %q)", rel, firstDiff(have, want), snippet(have, firstDiff(have, want)), snippet(want, firstDiff(have, want))), Case{Kind: "marshal", Path: rel})
+			c.Fail("", fmt.Sprintf(phase+"data/%s is not what the registered definition marshals to (byte %d: shipped %q, code %q)", rel, firstDiff(have, want), snippet(have, firstDiff(have, want)), snippet(want, firstDiff(have, want))), Case{Kind: "marshal", Path: rel})
 		}
 	}
 	for _, r := range tax.AllRegimeDefs() {
